@@ -19,7 +19,9 @@ the direction of the adjacent straight segment) where needed.
 * `lengthdot_is_derivative` — the straight-segment rate `ê·(v₂−v₁)` is the ε-coefficient of `‖p₂−p₁‖` on jets,
   `sqrtJ_mul_self` justifies the jet lift of `√`, `lengthDot_via_is_derivative` — whole path through via points;
 * `power_eq_minus_tension_lengthdot` — `calcCablePower = −T·lengthDot` for smooth paths, `0` for a slack cable;
-* `forces_sum_zero`, `moments_sum_zero` — third law for the resultant of `applyBodyForces`.
+* `forces_sum_zero`, `moments_sum_zero` — third law for the resultant of `applyBodyForces` (exactly smooth path);
+* `totalForce_eq_defects`, `unitPower_add_lengthDot_eq_defects` — for ANY path data the resultant force / the power
+  mismatch equal the sum of the tangent defects (what the harness bounds by the reported smoothness).
 -/
 namespace C45
 open V3
@@ -332,6 +334,92 @@ theorem moments_sum_zero (sqrt : K → K) (c : Path K) (h : smooth sqrt c) : tot
   unfold totalMoment
   rw [momentFrom_eq sqrt c.elems c.origin.p c.origin.t c.term h]
   apply V3.ext' <;> simp only [groundMoment, unitForceOrigin, add, neg, zero, cross, sub] <;> ring
+
+/-! ## Without the smoothness hypothesis: resultants equal the tangent defects
+
+A converged solve delivers tangents equal to the segment directions only up to its smoothness tolerance.  The next two
+theorems hold for *any* path data: the resultant force is exactly the sum of the tangent defects `t − ê` at the two ends
+of every straight segment, and `unitPower + lengthDot` is exactly the sum of `defect · point velocity`.  The harness
+bounds its force / moment / power predicates by the smoothness the solver reports through these identities
+(each defect is at most `√2 ·` path error), instead of by fixed numbers. -/
+
+/-- sum over the remaining straight segments of (exit-tangent defect at the start) − (entrance-tangent defect at the end) -/
+def defectForceFrom (sqrt : K → K) (q tq : V3 K) : List (Elem K) → EndPt K → V3 K
+  | [], T => sub (sub tq (unit sqrt (sub T.p q))) (sub T.t (unit sqrt (sub T.p q)))
+  | .curve _ P tP Q tQ _ :: es, T =>
+      add (sub (sub tq (unit sqrt (sub P q))) (sub tP (unit sqrt (sub P q)))) (defectForceFrom sqrt Q tQ es T)
+  | .via _ p tin tout :: es, T =>
+      add (sub (sub tq (unit sqrt (sub p q))) (sub tin (unit sqrt (sub p q)))) (defectForceFrom sqrt p tout es T)
+
+/-- the same with each defect dotted into the velocity of the point it sits at -/
+def defectPowerFrom (sqrt : K → K) (q tq vq : V3 K) : List (Elem K) → EndPt K → K
+  | [], T => dot (sub tq (unit sqrt (sub T.p q))) vq - dot (sub T.t (unit sqrt (sub T.p q))) (pointVel T.k T.p)
+  | .curve k P tP Q tQ _ :: es, T =>
+      dot (sub tq (unit sqrt (sub P q))) vq - dot (sub tP (unit sqrt (sub P q))) (pointVel k P)
+        + defectPowerFrom sqrt Q tQ (pointVel k Q) es T
+  | .via k p tin tout :: es, T =>
+      dot (sub tq (unit sqrt (sub p q))) vq - dot (sub tin (unit sqrt (sub p q))) (pointVel k p)
+        + defectPowerFrom sqrt p tout (pointVel k p) es T
+
+omit [LinearOrder K] [IsStrictOrderedRing K] in
+theorem forceFrom_add_eq_defects (sqrt : K → K) (es : List (Elem K)) :
+    ∀ (q tq : V3 K) (T : EndPt K), add tq (forceFrom es T) = defectForceFrom sqrt q tq es T := by
+  induction es with
+  | nil =>
+    intro q tq T
+    simp only [forceFrom, unitForceTerm, defectForceFrom]
+    apply V3.ext' <;> simp only [add, sub, neg] <;> ring
+  | cons e es ih =>
+    intro q tq T
+    cases e with
+    | curve k P tP Q tQ arc =>
+      have h := ih Q tQ T
+      simp only [forceFrom, unitForceElem, defectForceFrom, ← h]
+      apply V3.ext' <;> simp only [add, sub] <;> ring
+    | via k p tin tout =>
+      have h := ih p tout T
+      simp only [forceFrom, unitForceElem, defectForceFrom, ← h]
+      apply V3.ext' <;> simp only [add, sub] <;> ring
+
+omit [LinearOrder K] [IsStrictOrderedRing K] in
+/-- **Resultant force = sum of tangent defects** (no hypothesis on the path) -/
+theorem totalForce_eq_defects (sqrt : K → K) (c : Path K) :
+    totalForce c = defectForceFrom sqrt c.origin.p c.origin.t c.elems c.term := by
+  unfold totalForce
+  exact forceFrom_add_eq_defects sqrt c.elems c.origin.p c.origin.t c.term
+
+omit [LinearOrder K] [IsStrictOrderedRing K] in
+theorem powerFrom_add_ldot_eq_defects (sqrt : K → K) (es : List (Elem K)) :
+    ∀ (q tq vq : V3 K) (T : EndPt K),
+      dot tq vq + powerFrom es T + ldotFrom sqrt q vq es T = defectPowerFrom sqrt q tq vq es T := by
+  induction es with
+  | nil =>
+    intro q tq vq T
+    simp only [powerFrom, ldotFrom, spatialPower_term, defectPowerFrom]
+    simp only [dot, sub]; ring
+  | cons e es ih =>
+    intro q tq vq T
+    cases e with
+    | curve k P tP Q tQ arc =>
+      have h := ih Q tQ (pointVel k Q) T
+      simp only [powerFrom, ldotFrom, spatialPower_elem, defectPowerFrom, ← h]
+      simp only [dot, sub]; ring
+    | via k p tin tout =>
+      have h := ih p tout (pointVel k p) T
+      simp only [powerFrom, ldotFrom, spatialPower_elem, defectPowerFrom, ← h]
+      simp only [dot, sub]; ring
+
+omit [LinearOrder K] [IsStrictOrderedRing K] in
+/-- **`unitPower + lengthDot` = sum of (tangent defect · point velocity)** (no hypothesis on the path); with `smooth`
+every defect vanishes and this is `unitPower_eq_neg_lengthDot` -/
+theorem unitPower_add_lengthDot_eq_defects (sqrt : K → K) (c : Path K) :
+    unitPower c + lengthDot sqrt c
+      = defectPowerFrom sqrt c.origin.p c.origin.t (pointVel c.origin.k c.origin.p) c.elems c.term := by
+  unfold unitPower lengthDot
+  have e : spatialPower (unitForceOrigin c.origin) c.origin.k = dot c.origin.t (pointVel c.origin.k c.origin.p) :=
+    spatialPower_point c.origin.k c.origin.p c.origin.t
+  rw [e]
+  exact powerFrom_add_ldot_eq_defects sqrt c.elems c.origin.p c.origin.t (pointVel c.origin.k c.origin.p) c.term
 
 /-! ## Non-vacuity -/
 
